@@ -411,11 +411,12 @@ theorem C01_protocol_disciplined_with_sync_after (a b : Nat) (s : PState) (manag
   simp [disciplinedBy, hvw]
 
 /-- non-vacuity: commit 2 of the counterexample, with `save_metas` as extracted, satisfies
-D0, D1, D2, D4 and fails the full discipline; with one more sync it satisfies everything -/
+D0, D1, D2, D4; in the shape `sync; write` it fails the full discipline; with one more sync it
+satisfies everything (the examples do not depend on whether the repair has been applied) -/
 example : disciplinedBy (fun r => r != .D3a && r != .D3b) afterCommit1
     (commitOps Gen.SAVE_METAS_CALLS ⟨0, 3, 12, [0, 2, 3]⟩ [(3, 7)] ⟨2, 4, 50, [3]⟩ [2]) = true := by decide
 example : Disciplined afterCommit1
-    (commitOps Gen.SAVE_METAS_CALLS ⟨0, 3, 12, [0, 2, 3]⟩ [(3, 7)] ⟨2, 4, 50, [3]⟩ [2]) = false := by decide
+    (commitOps [1, 2] ⟨0, 3, 12, [0, 2, 3]⟩ [(3, 7)] ⟨2, 4, 50, [3]⟩ [2]) = false := by decide
 example : Disciplined afterCommit1
     (commitOps [1, 2, 1] ⟨0, 3, 12, [0, 2, 3]⟩ [(3, 7)] ⟨2, 4, 50, [3]⟩ [2]) = true := by decide
 
